@@ -308,3 +308,53 @@ PROPS["C20"] = {
               "thorough": {"evaluations": 120000, "distinct": 100000}},
     "assumptions": ["messages are labelled by construction; the matching predicate of the 5 rules is the harness's own (C21 judges the library matcher)"],
 }
+
+PROPS["C21"] = {
+    "level": "exploration",
+    "plan": zb_plan(("release", "miri")),
+    "rule": ("random rules built through MatchRule::builder over all keys (type, unique/well-known sender, interface, member, path xor "
+             "path_namespace, destination, argN, argNpath, arg0namespace) paired with messages derived from the rule as exact hits and "
+             "near misses (sibling/parent/child/root paths, retyped/missing/changed args, string vs object-path args with trailing-slash "
+             "prefixes, dropped destination/sender/interface, other type/member/destination), plus the specification's own examples; "
+             "MatchRule::matches compared with the reference predicate (well-known names: undecidable, not judged); distinct = distinct "
+             "(rule, near-miss kind, expected verdict)"),
+    "gates": {"quick": {"evaluations": 150000, "distinct": 50000, "class:expected-match": 50000, "class:expected-no-match": 30000},
+              "thorough": {"evaluations": 8000000, "distinct": 1000000}},
+    "assumptions": ["rules whose sender is a well-known name (incl. org.freedesktop.DBus) or messages whose destination is one are the documented exception"],
+}
+
+PROPS["C22"] = {
+    "level": "exploration",
+    "plan": zb_plan(("release", "miri")),
+    "rule": ("random rules over all keys with argN values over printable ASCII incl. apostrophe, comma, backslash, '=', empty and "
+             "non-ASCII text, arg indices 0..63: the library's string form must parse under the specification-conformant reference "
+             "parser to the same rule, re-parse with the library to an equal rule, be stable under print.parse, equal the serialised "
+             "(AddMatch) form; reference-grammar strings the library accepts must denote the same rule; distinct = distinct strings"),
+    "gates": {"quick": {"evaluations": 150000, "distinct": 50000, "class:apostrophe-in-value": 5000, "class:comma-in-value": 3000},
+              "thorough": {"evaluations": 8000000, "distinct": 1000000}},
+    "assumptions": ["the empty rule and rules with a trailing-slash argNpath value (not constructible, see C21) are not judged"],
+}
+
+PROPS["C23"] = {
+    "level": "exploration",
+    "plan": zb_plan(("release", "miri")),
+    "rule": ("random Address values (unix path/abstract/dir/tmpdir, unixexec with argv0..3, tcp with family, nonce-tcp, optional guid) "
+             "with values over all byte values 1..255: format then parse must give an equal address and a stable string; random "
+             "reference-grammar strings (optionally-escaped characters escaped or not, upper/lower hex) must parse to the "
+             "percent-decoded bytes; malformed escapes must be rejected; distinct = distinct address strings"),
+    "gates": {"quick": {"evaluations": 300000, "distinct": 100000, "class:value-with-escapes": 50000},
+              "thorough": {"evaluations": 15000000, "distinct": 3000000}},
+    "assumptions": ["tcp bind= is documented as unsupported by the parser and is not generated; vsock is not compiled in this build"],
+}
+
+PROPS["C34"] = {
+    "level": "exploration",
+    "plan": zb_plan(("release", "miri")),
+    "rule": ("random introspection trees (depth <= 4, valid names, generated type signatures, optional arg names/directions, annotations "
+             "with XML-special and non-ASCII text, some documents with > 4096 elements) rendered to XML by the harness, read with "
+             "Node::try_from/from_reader (accessors must equal the tree), written with to_writer and read back (must equal the first "
+             "Node); distinct = distinct documents"),
+    "gates": {"quick": {"evaluations": 3500, "distinct": 3000, "class:over-4096-elements": 20},
+              "thorough": {"evaluations": 150000, "distinct": 100000}},
+    "assumptions": ["the name of the root element written by to_writer is not judged (the property is about the value round trip)"],
+}
